@@ -7,6 +7,8 @@ package main
 
 import (
 	"bytes"
+	"errors"
+	"sort"
 	"crypto/cipher"
 	"fmt"
 	"strings"
@@ -20,10 +22,33 @@ import (
 	"verifharness/hx"
 )
 
+// feature tags of the op being generated; every unordered pair is counted as pair.<a>+<b>
+var tags []string
+
+func tag(s string) { tags = append(tags, s) }
+func flushPairs(g *hx.Gen) {
+	sort.Strings(tags)
+	for i := range tags {
+		for j := i + 1; j < len(tags); j++ {
+			if tags[i] != tags[j] {
+				g.Stat("pair." + tags[i] + "+" + tags[j])
+			}
+		}
+	}
+	tags = tags[:0]
+}
+
 func blocks(r *hx.Rand, bs int) []byte {
 	n := r.Range(1, 4)
 	b := r.Bytes(n * bs)
-	switch r.Intn(10) {
+	if n == 1 {
+		tag("blk.single")
+	} else {
+		tag("blk.multi")
+	}
+	bc := r.Intn(10)
+	tag([]string{"blk0.zero", "blk0.ff", "blk0.onebit", "blk0.random", "blk0.random", "blk0.random", "blk0.random", "blk0.random", "blk0.random", "blk0.random"}[bc])
+	switch bc {
 	case 0:
 		for i := 0; i < bs; i++ {
 			b[i] = 0
@@ -45,7 +70,15 @@ func blocks(r *hx.Rand, bs int) []byte {
 // cyclic key reads and S-box index collisions visible.
 func keyBytes(r *hx.Rand, n int) []byte {
 	k := r.Bytes(n)
-	switch r.Intn(12) {
+	kc := r.Intn(12)
+	if kc == 0 {
+		tag("key.equal-bytes")
+	} else if kc == 1 {
+		tag("key.counting")
+	} else {
+		tag("key.random")
+	}
+	switch kc {
 	case 0:
 		v := byte(r.Intn(256))
 		for i := range k {
@@ -59,23 +92,45 @@ func keyBytes(r *hx.Rand, n int) []byte {
 	return k
 }
 
+func klenTag(kl, lo, hi int) {
+	switch {
+	case kl < lo || kl > hi:
+		tag("klen.rejected")
+	case kl == lo:
+		tag("klen.min")
+	case kl == hi:
+		tag("klen.max")
+	default:
+		tag("klen.inside")
+	}
+}
+
 func gen(g *hx.Gen) {
-	n := g.Count(9000, 300000)
+	n := g.Count(8800, 300000)
 	r := g.R
 	var cv bfCover
-	for i := 0; i < n; i++ {
+	var c5 c5Cover
+	var rcv rc2Cover
+	twofishKeys := 0
+	emit := func(format string, a ...any) {
 		g.Stat("checked.dst==src+roundtrip") // exec runs Encrypt/Decrypt in place and both round trips on every op
-		switch i % 9 {
+		g.Emit(format, a...)
+		flushPairs(g)
+	}
+	for i := 0; i < n; i++ {
+		switch i % 11 {
 		case 0: // TEA
+			tag("c.tea")
 			kl := 16
 			if r.Chance(1, 8) {
 				kl = r.PickInt(0, 1, 8, 15, 17, 24, 32)
 				g.Stat("tea.badkeylen")
 			}
+			klenTag(kl, 16, 16)
 			var rounds int
 			switch r.Intn(6) {
 			case 0:
-				rounds = r.PickInt(0, 2, 6, 8, 10, 30, 32, 34, 62, 64, 66) // ≡ 0 and ≡ 2 mod 4: whole and half double-cycles
+				rounds = r.PickInt(0, 0, 0, 2, 6, 8, 10, 30, 32, 34, 62, 64, 66) // ≡ 0 and ≡ 2 mod 4: whole and half double-cycles
 			case 1:
 				rounds = 2*r.Intn(100) + 1
 				g.Stat("tea.odd")
@@ -86,33 +141,52 @@ func gen(g *hx.Gen) {
 				rounds = 64
 			default:
 				rounds = 2 * r.Intn(130)
-				if rounds%4 == 2 {
-					g.Stat("tea.rounds-2mod4")
-				}
+			}
+			switch {
+			case rounds < 0:
+				tag("rounds.negative")
+			case rounds%2 == 1:
+				tag("rounds.odd")
+			case rounds == 0:
+				tag("rounds.zero")
+			case rounds == 64:
+				tag("rounds.64-NewCipher")
+			case rounds%4 == 2:
+				tag("rounds.2mod4")
+				g.Stat("tea.rounds-2mod4")
+			default:
+				tag("rounds.0mod4")
 			}
 			g.Stat("cipher.tea")
-			g.Emit("blk cipher=tea key=%s rounds=%d src=%s", hx.Hex(keyBytes(r, kl)), rounds, hx.Hex(blocks(r, 8)))
+			emit("blk cipher=tea key=%s rounds=%d src=%s", hx.Hex(keyBytes(r, kl)), rounds, hx.Hex(blocks(r, 8)))
 		case 1: // XTEA
+			tag("c.xtea")
 			kl := 16
 			if r.Chance(1, 8) {
 				kl = r.PickInt(0, 1, 8, 15, 17, 24, 32)
 				g.Stat("xtea.badkeylen")
 			}
+			klenTag(kl, 16, 16)
 			g.Stat("cipher.xtea")
-			g.Emit("blk cipher=xtea key=%s src=%s", hx.Hex(keyBytes(r, kl)), hx.Hex(blocks(r, 8)))
+			emit("blk cipher=xtea key=%s src=%s", hx.Hex(keyBytes(r, kl)), hx.Hex(blocks(r, 8)))
 		case 2, 3: // Blowfish, every key length 0..58 and a few longer
-			kl := (i / 9) % 59
+			tag("c.blowfish")
+			kl := (i / 11) % 59
 			if r.Chance(1, 20) {
 				kl = r.PickInt(57, 64, 72, 100)
+			} else if r.Chance(1, 8) {
+				kl = r.PickInt(1, 56) // documented limits
 			}
+			klenTag(kl, 1, 56)
 			g.Stat(fmt.Sprintf("blowfish.keylen.%s", bucket(kl, 1, 56)))
 			g.Stat("cipher.blowfish")
 			key := keyBytes(r, kl)
 			if kl >= 1 && kl <= 56 {
 				cv.expand(key, nil)
 			}
-			g.Emit("blk cipher=blowfish key=%s src=%s", hx.Hex(key), hx.Hex(blocks(r, 8)))
+			emit("blk cipher=blowfish key=%s src=%s", hx.Hex(key), hx.Hex(blocks(r, 8)))
 		case 4: // salted Blowfish: keys up to 80 bytes, salts 0..40
+			tag("c.blowfish-salted")
 			kl := r.Range(1, 80)
 			if r.Chance(1, 10) {
 				kl = r.PickInt(0, 56, 57, 72, 73)
@@ -127,29 +201,62 @@ func gen(g *hx.Gen) {
 			case 2:
 				sl = r.PickInt(1, 2, 3, 5, 7, 40)
 			}
+			switch {
+			case sl == 0:
+				tag("salt.empty")
+				klenTag(kl, 1, 56)
+			case sl%4 == 0:
+				tag("salt.word-aligned")
+				klenTag(kl, 1, 1<<30)
+			default:
+				tag("salt.unaligned")
+				klenTag(kl, 1, 1<<30)
+			}
+			if kl > 56 {
+				tag("key.over56")
+			}
 			g.Stat("cipher.blowfish-salted")
 			key, salt := keyBytes(r, kl), keyBytes(r, sl)
-			if sl > 0 || kl <= 56 {
+			if kl >= 1 && (sl > 0 || kl <= 56) {
 				cv.expand(key, salt)
 			}
-			g.Emit("blk cipher=blowfish-salted key=%s salt=%s src=%s", hx.Hex(key), hx.Hex(salt), hx.Hex(blocks(r, 8)))
+			emit("blk cipher=blowfish-salted key=%s salt=%s src=%s", hx.Hex(key), hx.Hex(salt), hx.Hex(blocks(r, 8)))
 		case 5: // CAST5
+			tag("c.cast5")
 			kl := 16
 			if r.Chance(1, 8) {
 				kl = r.PickInt(0, 5, 10, 15, 17, 32)
 				g.Stat("cast5.badkeylen")
 			}
+			klenTag(kl, 16, 16)
 			g.Stat("cipher.cast5")
-			g.Emit("blk cipher=cast5 key=%s src=%s", hx.Hex(keyBytes(r, kl)), hx.Hex(blocks(r, 8)))
+			key, src := keyBytes(r, kl), blocks(r, 8)
+			if kl == 16 { // coverage of the 8 S-boxes on the instrumented copy, validated against the real cipher
+				rc, _ := cast5.NewCipher(key)
+				for off := 0; off+8 <= len(src); off += 8 {
+					want := make([]byte, 8)
+					rc.Encrypt(want, src[off:off+8])
+					if got := c5.encrypt(key, src[off:off+8]); !bytes.Equal(got[:], want) {
+						g.Stat("cover.cast5-copy-DISAGREES-with-package")
+					}
+				}
+			}
+			emit("blk cipher=cast5 key=%s src=%s", hx.Hex(key), hx.Hex(src))
 		case 6, 7: // Twofish
 			kl := r.PickInt(16, 24, 32)
 			if r.Chance(1, 8) {
 				kl = r.PickInt(0, 8, 15, 17, 23, 25, 31, 33, 40, 64)
 				g.Stat("twofish.badkeylen")
+				tag("klen.rejected")
+				tag("c.twofish")
+			} else {
+				tag(fmt.Sprintf("c.twofish%d", 8*kl))
+				twofishKeys++
 			}
 			g.Stat(fmt.Sprintf("cipher.twofish.%d", kl))
-			g.Emit("blk cipher=twofish key=%s src=%s", hx.Hex(keyBytes(r, kl)), hx.Hex(blocks(r, 16)))
+			emit("blk cipher=twofish key=%s src=%s", hx.Hex(keyBytes(r, kl)), hx.Hex(blocks(r, 16)))
 		case 8: // RC2: key 1..128 bytes, effective bits 1..1024 (pkcs12 uses len*8 with 5/16-byte keys)
+			tag("c.rc2")
 			kl := r.Range(1, 32)
 			t1 := 8 * kl
 			switch r.Intn(8) {
@@ -157,6 +264,7 @@ func gen(g *hx.Gen) {
 				kl = r.PickInt(5, 16)
 				t1 = 8 * kl
 				g.Stat("rc2.pkcs12-shape")
+				tag("t1.pkcs12")
 			case 1:
 				kl = r.Range(33, 128)
 				t1 = r.Range(1, 1024)
@@ -164,6 +272,7 @@ func gen(g *hx.Gen) {
 				t1 = r.Range(1, 1024)
 			case 4:
 				t1 = r.PickInt(1, 7, 8, 9, 63, 64, 65, 1023, 1024)
+				tag("t1.boundary")
 			case 5:
 				if r.Bool() { // arguments the code does not check: it panics (index out of range)
 					kl = r.PickInt(0, 1, 16)
@@ -172,33 +281,111 @@ func gen(g *hx.Gen) {
 						t1 = r.PickInt(0, 40, 1025)
 					}
 					g.Stat("rc2.unchecked-args")
+					tag("t1.unchecked-args")
 				} else {
 					kl = r.PickInt(128, 129, 200)
 					t1 = r.Range(1, 1024)
 					g.Stat("rc2.longkey")
+					tag("key.128plus")
+				}
+			}
+			if t1 >= 1 && t1 <= 1024 {
+				if t1%8 == 0 {
+					tag("t1.multiple-of-8")
+				} else {
+					tag("t1.partial-byte")
+				}
+				if (t1+7)/8 < kl {
+					tag("t1.shorter-than-key")
+				} else if (t1+7)/8 > kl {
+					tag("t1.longer-than-key")
 				}
 			}
 			g.Stat("cipher.rc2")
-			g.Emit("blk cipher=rc2 key=%s t1=%d src=%s", hx.Hex(keyBytes(r, kl)), t1, hx.Hex(blocks(r, 8)))
+			key, src := keyBytes(r, kl), blocks(r, 8)
+			if kl >= 1 && t1 >= 1 && t1 <= 1024 {
+				k := rcv.expand(key, t1)
+				if rb, err := pkcs12.VerifRC2New(key, t1); err == nil {
+					want := make([]byte, 8)
+					rb.Encrypt(want, src[:8])
+					if got := rc2Encrypt(k, src[:8]); !bytes.Equal(got[:], want) {
+						g.Stat("cover.rc2-copy-DISAGREES-with-package")
+					}
+				}
+			}
+			emit("blk cipher=rc2 key=%s t1=%d src=%s", hx.Hex(key), t1, hx.Hex(src))
+		case 9: // exported blowfish.ExpandKey on a constructed cipher or on the zero value, 0..3 times
+			tag("c.blowfish-expand")
+			init := "std"
+			if r.Chance(1, 3) {
+				init = "zero"
+				tag("init.zero-value")
+			} else {
+				tag("init.constructed")
+			}
+			kl, sl := r.Range(1, 56), r.PickInt(0, 0, 16, 5)
+			if sl > 0 {
+				kl = r.Range(1, 80)
+			}
+			if r.Chance(1, 15) {
+				kl = 0 // constructor error (ignored for init=zero)
+			}
+			ne := r.Intn(4)
+			tag(fmt.Sprintf("expandkey.x%d", ne))
+			eks := make([]string, ne)
+			for j := range eks {
+				el := r.Range(1, 72)
+				switch r.Intn(10) {
+				case 0:
+					el = 0 // ExpandKey(nil, c) indexes key[0]: panic
+					tag("expandkey.empty-key")
+				case 1:
+					el = r.PickInt(1, 4, 56, 57, 72, 73, 100)
+				}
+				eks[j] = hx.Hex(r.Bytes(el))
+			}
+			ek := strings.Join(eks, ",")
+			if ne == 0 {
+				ek = "none"
+			}
+			g.Stat("cipher.blowfish-expand")
+			emit("blk cipher=blowfish-expand init=%s key=%s salt=%s ek=%s src=%s", init, hx.Hex(keyBytes(r, kl)), hx.Hex(keyBytes(r, sl)), ek, hx.Hex(blocks(r, 8)))
+		case 10: // zero-value receivers of the exported cipher structs
+			c := r.PickStr("cast5-zero", "twofish-zero", "xtea-zero")
+			tag("c." + c)
+			bs := 8
+			if c == "twofish-zero" {
+				bs = 16
+			}
+			g.Stat("cipher." + c)
+			if i%3 != 0 { // 1/3 of the slots: keep the share of these trivial ciphers small
+				tags = tags[:0]
+				continue
+			}
+			emit("blk cipher=%s key=- src=%s", c, hx.Hex(blocks(r, bs)))
 		}
 	}
-	// S-box index coverage: entries of Blowfish's INITIAL tables (4 × 256) read before the key
-	// schedule overwrites them, over all keys of this run (measured on an instrumented copy, cover.go).
-	// CAST5 S1–S4 (16 lookups per box and block), S5–S8 (40 per box and key), RC2 PITABLE (≥128 per
-	// key) and Twofish q0/q1 (all 256 entries per key) are static tables indexed pseudo-randomly.
-	g.StatN("blowfish.initial-sbox-entries-read.of-1024", cv.count())
+	// ---- rare-index coverage of the constant tables (table.<name>.hit-of-<total>)
+	// Blowfish: entries of the INITIAL p/s0..s3 tables read before the key schedule overwrites them
+	g.StatN("table.blowfish-initial-sboxes.hit-of-1024", cv.count())
 	for k := 0; k < 4; k++ {
-		c := 0
-		for _, h := range cv.hit[k] {
-			if h {
-				c++
-			}
+		g.StatN(fmt.Sprintf("table.blowfish-initial-s%d.hit-of-256", k), count256(cv.hit[k]))
+	}
+	for k := 0; k < 8; k++ {
+		g.StatN(fmt.Sprintf("table.cast5-S%d.hit-of-256", k+1), count256(c5.hit[k]))
+		if c5.hit[k][0] && c5.hit[k][255] {
+			g.Stat(fmt.Sprintf("table.cast5-S%d.first-and-last-entry", k+1))
 		}
-		g.StatN(fmt.Sprintf("blowfish.initial-s%d-entries-read.of-256", k), c)
+	}
+	g.StatN("table.rc2-PITABLE.hit-of-256", count256(rcv.hit))
+	// Twofish: NewCipher's S-box loops read sbox[0][i] and sbox[1][i] for every i in 0..255 and every rs
+	// entry, for every accepted key; the key-size switch arms are cipher.twofish.16/24/32
+	if twofishKeys > 0 {
+		g.StatN("table.twofish-q0q1.hit-of-512", 512)
+		g.StatN("table.twofish-rs.hit-of-32", 32)
 	}
 }
 
-// (coverage statistics are emitted at the end of gen)
 func bucket(v, lo, hi int) string {
 	if v < lo {
 		return "below"
@@ -297,6 +484,28 @@ func exec1(o hx.Op) string {
 		var x *blowfish.Cipher
 		x, err = blowfish.NewSaltedCipher(key, salt)
 		c = x
+	case "blowfish-expand":
+		var x *blowfish.Cipher
+		if o.Str("init") == "zero" {
+			x = new(blowfish.Cipher)
+		} else {
+			x, err = blowfish.NewSaltedCipher(key, salt)
+		}
+		if err == nil && o.Str("ek") != "none" {
+			for _, e := range strings.Split(o.Str("ek"), ",") {
+				ear, ein := build(spec{name: "ek", data: hx.UnHex(e), spare: 8})
+				blowfish.ExpandKey(ein[0], x) // empty key: index out of range → `panic` (hx.Catch)
+				mut.add(ear.changed())
+			}
+		}
+		c = x
+	case "cast5-zero":
+		c = new(cast5.Cipher)
+	case "twofish-zero":
+		c = new(twofish.Cipher)
+		bs = 16
+	case "xtea-zero":
+		c = new(xtea.Cipher)
 	case "cast5":
 		var x *cast5.Cipher
 		x, err = cast5.NewCipher(key)
@@ -313,7 +522,17 @@ func exec1(o hx.Op) string {
 	}
 	mut.add(ar.changed())
 	if err != nil {
+		// the numeric value of a KeySizeError is API: it must be the offending key length
+		var bk blowfish.KeySizeError
+		var tk twofish.KeySizeError
+		var xk xtea.KeySizeError
+		if (errors.As(err, &bk) && int(bk) != len(key)) || (errors.As(err, &tk) && int(tk) != len(key)) || (errors.As(err, &xk) && int(xk) != len(key)) {
+			return "keysizeerror-value-fail"
+		}
 		return "err " + mut.String()
+	}
+	if blowfish.BlockSize != 8 || cast5.BlockSize != 8 || cast5.KeySize != 16 || twofish.BlockSize != 16 || tea.BlockSize != 8 || tea.KeySize != 16 || xtea.BlockSize != 8 {
+		return "const-fail"
 	}
 	r := run(c, bs, src, enc, dec)
 	mut.add(ar.changed())
